@@ -54,6 +54,11 @@ FIXED = [
     ("C11", "d7809fd", "host None crossed the native boundary un-normalised at _new_object/_invoke_getter/_to_primitive"),
     ("C15", "36ec98f", "`new parseInt()` reported a message containing a host object address"),
     ("C06", "382816e", "`o.x += 2` assigned 2: member targets ignored the compound operator"),
+    ("C07", "3b999da", "`try { eval('1+') } catch (e) {}` (also new Function('1+')) aborted the evaluation: a SyntaxError raised while running was not converted into a script exception"),
+    ("C19", "3b999da", "`try { JSON.parse('{') } catch (e) {}` raised JSSyntaxError out of eval: script code could not catch it"),
+    ("C10", "620e81d", "`new RegExp('(')`, `/(/` and 'a'.match('(') raised the regex engine's private RegExpError out of eval; `/(a|b)*c/.test('ab'.repeat(6000))` raised RegexStackOverflow"),
+    ("C04", "620e81d", "RegExpError and RegexStackOverflow (host exception classes) escaped from Context.eval"),
+    ("C10", "930c570", "`/(?=(a|a)*b)/.test('a'.repeat(40))` ran without bound: the lookahead and lookbehind sub-matchers had no step budget"),
     ("C04", "5541b57", "`a.reduce(function(acc,x){a.pop();return acc+x})` (and reduceRight) let a raw IndexError escape: the loop bound was computed before the callbacks ran"),
 ]
 
